@@ -5,7 +5,7 @@ from .common import VERIF
 CLAIMED = ["c02", "c03", "c04", "c05", "c07", "c09", "c10", "c11", "c13", "c14", "c15", "c16", "c17", "c18", "c19"]
 
 LEVEL_TEXT_EXTRA = {
-    "C03": ("Bounded model checking of two of the five parsers: the WebSocket frame decoder on every byte string of 0..16 bytes (every header, every claimed length up to 2^64-1, whole delivery; other read plans under C10) returns a value or an error and never panics, overflows or exceeds its loop bounds, and never requests more payload memory than 64 KiB beyond the input (allocation recorder under Kani, tracking allocator in the native replay); the Base64 decoder on every ASCII string of 0..9 symbols and on strings with a 2-byte character never panics. The HTTP request/response parsers and message assembly are NOT decided (not encodable / out of memory); JSON and the configuration parser are covered only as far as C13/C15 say.",
+    "C03": ("Four of the five parsers. WebSocket frame decoder (Kani/CBMC): every byte string of 0..16 bytes (every header, every claimed length up to 2^64-1) returns a value or an error, never panics, overflows or exceeds its loop bounds, and never requests more payload memory than 64 KiB beyond the input (allocation recorder under Kani, tracking allocator natively); Base64 decoder on every ASCII string of 0..9 symbols and with a 2-byte character never panics. HTTP request parser (symbolic execution of the MIR of Request::from_stream, z3): for malformed-request templates — arbitrary ASCII garbage of 1..4 bytes at the start line, inside and after header lines, multi-byte UTF-8 characters at every slicing position, invalid UTF-8, Content-Length claims with symbolic digits and huge values, end of stream anywhere — every path returns a value or an error without panicking and every vec![0; n] stays within 64 KiB + 16 x the bytes supplied. JSON parser: no panic on every Unicode string of 0..4 characters (thorough: 5). NOT decided: the HTTP response parser, message assembly beyond C11, the configuration parser beyond C15's kernel, stack depth and wall-clock time.",
             "Trusted: Kani/CBMC; reference models refs/ws.rs and refs/b64.rs; the from_elem recorder stub."),
     "C13": ("Symbolic execution of the MIR of the recursive-descent JSON parser (Value::parse and every Parser method, recursion inlined) on inputs of 0..5 characters (thorough: 6) over ALL Unicode scalar values: z3 shows that the parser never panics and that it accepts a string if and only if it is an RFC 8259 JSON text (recogniser written as formulas over the same characters); the depth-limit logic is checked through parse_max_depth with limits 0 and 1. The executor is validated on every run against the natively compiled parser on 281 documents; counterexamples are replayed natively and judged by an independent reference parser. NOT decided: documents longer than the bound (two-member objects, \\u escapes), the value tree and member order, numeric values, the serialiser and the round trip.",
             "Trusted: the MIR executor and its std models (f64::from_str as its documented grammar, u16::from_str_radix, char::from_u32, decode_utf16, Peekable<Chars>, String/Vec), z3, the RFC 8259 recogniser in vlib/props/c13.py."),
